@@ -32,10 +32,11 @@ enum Probe
 	P_LAW_SAMPLES,
 	P_LAW_INTRUDERS,
 	P_VPOISSON,
+	P_PRISTINE,
 	P_KIND0,
 	P_NPROBES = P_KIND0 + 9
 };
-const char* PROBE_NAMES[] = {"sampler_ops", "replay_from_state_checks", "poisson_mean_above_500", "poisson_mean_above_1000", "metropolis_bounded_domain_calls", "rejection_loop_10_or_more_iterations", "rejection_inefficiency_warning_branch", "fault_generator_edge_seed(0,1,5489,2^32-1)", "fault_generator_discard", "op_started_from_used_generator_state", "metropolis_grid_triples", "law_pools", "law_samples", "law_interleaved_intruder_calls", "vector_poisson_ops", "kind_uniform", "kind_gauss", "kind_poisson", "kind_inverse_transform", "kind_rejection", "kind_rejection_2d", "kind_metropolis", "kind_metropolis_2d", "kind_vector_poisson"};
+const char* PROBE_NAMES[] = {"sampler_ops", "replay_from_state_checks", "poisson_mean_above_500", "poisson_mean_above_1000", "metropolis_bounded_domain_calls", "rejection_loop_10_or_more_iterations", "rejection_inefficiency_warning_branch", "fault_generator_edge_seed(0,1,5489,2^32-1)", "fault_generator_discard", "op_started_from_used_generator_state", "metropolis_grid_triples", "law_pools", "law_samples", "law_interleaved_intruder_calls", "vector_poisson_ops", "comparisons_with_a_pristine_process", "kind_uniform", "kind_gauss", "kind_poisson", "kind_inverse_transform", "kind_rejection", "kind_rejection_2d", "kind_metropolis", "kind_metropolis_2d", "kind_vector_poisson"};
 enum Metric
 {
 	M_DKW,	 // worst D / bound
@@ -48,6 +49,7 @@ struct Spec
 	int kind = 0, family = 0;
 	unsigned sample = 1, thin = 1, burn = 0;
 	int bounded = 0;
+	int pristine = 0;	// also compare with the same call in a pristine process
 	std::vector<double> p;	 // parameters (meaning depends on kind/family)
 };
 const char* KINDS[] = {"uniform", "gauss", "poisson", "its", "rej", "rej2", "metro", "metro2", "vpoisson"};
@@ -55,7 +57,7 @@ const char* KINDS[] = {"uniform", "gauss", "poisson", "its", "rej", "rej2", "met
 Op spec_op(const Spec& s)
 {
 	Op o(KINDS[s.kind]);
-	o.i = {s.family, (long long) s.sample, (long long) s.thin, (long long) s.burn, s.bounded};
+	o.i = {s.family, (long long) s.sample, (long long) s.thin, (long long) s.burn, s.bounded, s.pristine};
 	o.d = s.p;
 	return o;
 }
@@ -72,6 +74,7 @@ bool op_spec(const Op& o, Spec& s)
 	s.thin	  = (unsigned) std::max(1ll, o.i[2]);
 	s.burn	  = (unsigned) o.i[3];
 	s.bounded = (int) o.i[4];
+	s.pristine = o.i.size() > 5 ? (int) o.i[5] : 0;
 	s.p		  = o.d;
 	static const size_t need[] = {2, 2, 1, 3, 4, 6, 5, 6, 1};
 	return s.p.size() >= need[s.kind];
@@ -321,6 +324,49 @@ struct Exec
 	bool nonfresh_start = false;
 	Exec(Ctx& c, const Plan& p) : ctx(c), plan(p) {}
 
+	RefServer ref;
+	static std::string gen_text(const std::mt19937& g)
+	{
+		std::ostringstream os;
+		os << g;
+		return os.str();
+	}
+	static std::string pristine_handler(const std::string& req)
+	{
+		// request: first line = op text, rest = generator state; response: outputs (hexfloat, space separated) | state after
+		size_t nl = req.find('\n');
+		Op o;
+		Spec s;
+		if(nl == std::string::npos || !Op::parse(req.substr(0, nl), o) || !op_spec(o, s))
+			return "bad";
+		std::mt19937 g;
+		std::istringstream is(req.substr(nl + 1));
+		is >> g;
+		std::vector<double> out = draw(g, s);
+		std::string r;
+		for(double v : out)
+			r += hexf(v) + " ";
+		return r + "|" + gen_text(g);
+	}
+	void compare_pristine(const Spec& s, const std::mt19937& pre, const std::vector<double>& out)
+	{
+		if(!ref.running())
+			return;
+		std::string resp;
+		bool ok = true;
+		if(!ref.ask(spec_op(s).text() + "\n" + gen_text(pre), resp, ok))
+			return;
+		ctx.probe(P_PRISTINE);
+		if(!ok)
+			ctx.violate("C18:terminated-on-valid-request", "the same sampler call in a pristine process did not return; " + describe(s));
+		std::string mine;
+		for(double v : out)
+			mine += hexf(v) + " ";
+		mine += "|" + gen_text(G);
+		if(mine != resp)
+			ctx.violate("C18:pristine-process", "from the same generator state this call returned other samples or left another generator state than the identical call in a pristine process (hidden state shared between calls); " + describe(s));
+	}
+
 	void check_support(const Spec& s, const std::vector<double>& out)
 	{
 		const std::vector<double>& p = s.p;
@@ -409,8 +455,11 @@ struct Exec
 		prev_kind = s.kind;
 
 		std::mt19937 G2 = G;
+		const std::mt19937 pre = G;
 		Counters c1;
 		std::vector<double> out = draw(G, s, &c1);
+		if(s.pristine)
+			compare_pristine(s, pre, out);
 		for(double v : out)
 			ctx.log.f64(v);
 		if(c1.rej_iters >= 10)
@@ -747,6 +796,12 @@ struct Exec
 
 	void run()
 	{
+		for(auto& o : plan.ops)
+			if(o.i.size() > 5 && o.i[5] && o.kind != "law" && o.kind != "chain" && o.kind != "seed" && o.kind != "discard")
+			{
+				ref.start(pristine_handler);   // forked before this process has called libphysica
+				break;
+			}
 		G.seed(5489u);
 		for(size_t k = 0; k < plan.ops.size(); k++)
 		{
@@ -997,6 +1052,7 @@ struct Gen
 					Spec t	 = random_spec(s.kind, false);
 					s.sample = t.sample, s.thin = t.thin, s.burn = t.burn;
 				}
+				s.pristine = r.chance(0.05) ? 1 : 0;
 				p.ops.push_back(spec_op(s));
 			}
 		}
